@@ -309,6 +309,10 @@ INVALID = [
 ]
 
 
+
+SEMANTIC += ['f().x += 1\n', "globals()['c'] += 1\n", 'super().total -= 1\n', '(g(a, b)[0].y) |= 4\n', 'a.b().c[d] *= 2\n', 'a[0]().b **= 2\n', 'f()[0] += 1\n', 'f().a.b += 1\n',
+             'def f():\n    """Example:\n        \\"""inner\\"""\n    """\n', "s = '''a\n\\'''b\n'''\n", 'x = """a\\\n\\"""b"""\n', "t = rb'''x\\\\'''\n", 'u = f"""{a}\n\\"""{b}"""\n',
+             "d = '''it\\'s\n\\\\'''\n", 's = "a\\"b" \'c\\\'d\'\n', "f'''{x:\n  >10}'''\n", 'f"""{x:{w}\n}"""\n', "f'''{x!r:\n^{w}}'''\n", "f'''a\n{x:>\n5}b'''\n"]
 WRAPS = ['', '', '', 'def w():\n', 'async def w():\n', 'class W:\n', 'if c:\n', 'for q in p:\n', 'while c:\n', 'try:\n', 'with m:\n', 'def w():\n    def v():\n', 'class W:\n    def m(self):\n']
 
 
